@@ -22,8 +22,11 @@ list indexed by the key (`look`/`put`). Instances are grouped by
 carries `prevExitedCh` over). The field `r.exitedCh` of the code is `G.last` (the only record of a
 generation whose `exitedCh` is ever read again is the one in the map).
 
+A constructor may return a nil `Routine` (`env nilnext k`: the harness' constructor will do so at
+its next call for `k`; `Rec.hasFn`).
+
 Not modelled (the harness never does it): cancelling a root context while it is installed (so
-`k.ctx.Err() != nil` never holds), constructors returning a nil `Routine`, condition functions of
+`k.ctx.Err() != nil` never holds), condition functions of
 `ResetRoutine`/`RestartRoutine`, exit callbacks, several concurrent callers (one driver actor).
 -/
 namespace UtilModel.Keyed
@@ -82,6 +85,8 @@ structure Rec where
   deferRetry : Option Nat := none
   /-- position in the backoff script (`NextBackOff` calls since the last `Reset`) -/
   bo : Nat := 0
+  /-- `r.routine != nil`: the constructor returned a routine -/
+  hasFn : Bool := true
 deriving DecidableEq, Repr, Hashable
 
 structure Cfg where
@@ -159,6 +164,8 @@ structure St where
   /-- harness run id ↦ (generation, instance) -/
   runs : List (Nat × Nat) := []
   call : Call := .idle
+  /-- keys for which the harness' constructor will return a nil `Routine` at its next call -/
+  nilNext : List Nat := []
 deriving DecidableEq, Repr, Hashable
 
 def St.key (s : St) (k : Nat) : Option Rec := look s.keys k
@@ -200,7 +207,7 @@ def chClosed (x : G) : Option Nat → Bool
 /-- `r.start(ctx, r.exitedCh, force)` for the record `r` of key `k` (routine.go:73-95); the caller
 has checked `k.ctx != nil` -/
 def start (s : St) (k : Nat) (r : Rec) (force : Bool) : St :=
-  if !force && r.success then s
+  if (!force && r.success) || !r.hasFn then s
   else if !force && r.cur.isSome && !r.exited && !instCancelled s r.gen r.cur then s
   else
     let s1 := cancelOpt s r.gen r.cancelOf
@@ -223,9 +230,10 @@ def startKey (s : St) (k : Nat) (force : Bool) : St :=
 record belongs to -/
 def newRec (s : St) (k gen : Nat) : St :=
   let d := s.ctors k + 1
-  { s with keys := put s.keys k (some { id := s.nrec, gen := gen, data := d })
+  { s with keys := put s.keys k (some { id := s.nrec, gen := gen, data := d, hasFn := !s.nilNext.contains k })
            nctor := put s.nctor k (some d)
-           nrec := s.nrec + 1 }
+           nrec := s.nrec + 1
+           nilNext := s.nilNext.filter (· != k) }
 
 /-- a key that is not in the map gets a record of a fresh generation -/
 def createKey (s : St) (k : Nat) : St :=
@@ -308,13 +316,19 @@ def setContext (s : St) (c : Option Nat) (restart : Bool) : St :=
   if same && !restart then s
   else (keyList s).foldl (setCtxOne same restart) { s with ctx := c }
 
+/-- keyed.go:328-333: with a context, `v.start(k.ctx, prevExitedCh, false)` is relied upon to store the
+new exit channel in the new record; for a nil routine it returns at once and `v.exitedCh` stays nil:
+the exit channel of the replaced routine is forgotten (`s0` is the state before the call) -/
+def resetTail (s0 s2 : St) (k g : Nat) : St :=
+  if s0.ctx.isSome && s0.nilNext.contains k then modG s2 g fun y => { y with last := none } else s2
+
 /-- `resetRoutineLocked` without conditions (keyed.go:300-336) -/
 def resetKey (s : St) (k : Nat) : St × List (Nat × Nat) × Bool :=
   match s.key k with
   | none => (s, [], false)
   | some r =>
     let s1 := newRec (cancelOpt s r.gen r.cancelOf) k r.gen
-    (startKey s1 k false, [(k, s.ctors k + 1)], true)
+    (resetTail s (startKey s1 k false) k r.gen, [(k, s.ctors k + 1)], true)
 
 /-- `restartRoutineLocked` without conditions (keyed.go:370-404); returns (existed, reset) -/
 def restartKey (s : St) (k : Nat) : St × Bool × Bool :=
@@ -473,6 +487,7 @@ inductive Ev where
   | advance
   | quiesce
   | probe (j : Nat) (cancelled : Bool)
+  | nilnext (k : Nat)
 deriving DecidableEq, Repr, Hashable
 
 /-- what the harness logs -/
@@ -486,6 +501,7 @@ inductive Obs where
   | advance
   | quiesce
   | probe (j : Nat) (cancelled : Bool)
+  | nilnext (k : Nat)
 deriving DecidableEq, Repr, Hashable
 
 def Ev.obs : Ev → Option Obs
@@ -498,6 +514,7 @@ def Ev.obs : Ev → Option Obs
   | .advance => some .advance
   | .quiesce => some .quiesce
   | .probe j c => some (.probe j c)
+  | .nilnext k => some (.nilnext k)
   | _ => none
 
 /-- one step of instance `i` of generation `g` -/
@@ -587,6 +604,8 @@ def step (s : St) : Ev → Option St
       match getInst s g i with
       | some x => if x.st = .running ∧ x.cancelled = c then some s else none
       | none => none
+  | .nilnext k =>
+    if s.cfg.isSome ∧ s.call = .idle then some { s with nilNext := k :: s.nilNext.filter (· != k) } else none
 
 /-- internal events worth trying -/
 def cands (s : St) : List Ev :=
@@ -613,6 +632,7 @@ def evsOf (s : St) : Obs → List Ev
   | .advance => [.advance]
   | .quiesce => [.quiesce]
   | .probe j c => [.probe j c]
+  | .nilnext k => [.nilnext k]
 
 def model : OLTS St Ev Obs where
   init := {}
@@ -688,6 +708,7 @@ def Obs.parse : List String → Option Obs
   | ["advance"] => some .advance
   | ["quiesce"] => some .quiesce
   | ["probe", j, c] => do pure (.probe (← j.toNat?) (← pBool "cancelled" "live" c))
+  | ["env", "nilnext", k] => do pure (.nilnext (← k.toNat?))
   | _ => none
 
 end UtilModel.Keyed
